@@ -38,34 +38,87 @@ func fullZeroLoop(fn *ssa.Function, isSlice func(ssa.Value) bool) (ssa.Instructi
 			if !ok || !isSlice(ia.X) {
 				continue
 			}
-			// index = phi + 1 with phi starting at -1; loop bound len(same slice)
-			add, ok := ia.Index.(*ssa.BinOp)
-			if !ok || add.Op != token.ADD {
-				continue
-			}
-			phi, ok := add.X.(*ssa.Phi)
-			one, isone := constInt(add.Y)
-			if !ok || !isone || one != 1 {
-				continue
-			}
-			start := false
-			for _, e := range phi.Edges {
-				if k, ok := constInt(e); ok && k == -1 {
-					start = true
+			isLen := func(v ssa.Value) bool {
+				call, ok := v.(*ssa.Call)
+				if !ok {
+					return false
 				}
+				bi, ok := call.Call.Value.(*ssa.Builtin)
+				return ok && bi.Name() == "len" && isSlice(call.Call.Args[0])
 			}
-			bound := false
-			for _, r := range refs(add) {
-				if cmp, ok := r.(*ssa.BinOp); ok && cmp.Op == token.LSS && cmp.X == add {
-					if call, ok := cmp.Y.(*ssa.Call); ok {
-						if bi, ok := call.Call.Value.(*ssa.Builtin); ok && bi.Name() == "len" && isSlice(call.Call.Args[0]) {
-							bound = true
-						}
+			// the store runs on every iteration: its block dominates every back edge of the counter
+			everyIter := func(phi *ssa.Phi) bool {
+				n := 0
+				for i := range phi.Edges {
+					pred := phi.Block().Preds[i]
+					if !phi.Block().Dominates(pred) {
+						continue
+					}
+					n++
+					if !b.Dominates(pred) {
+						return false
 					}
 				}
+				return n > 0
 			}
-			if start && bound {
-				return in, true
+			// range form: index = phi + 1 with phi starting at -1; loop bound len(same slice)
+			if add, ok := ia.Index.(*ssa.BinOp); ok && add.Op == token.ADD {
+				phi, ok := add.X.(*ssa.Phi)
+				one, isone := constInt(add.Y)
+				if !ok || !isone || one != 1 {
+					continue
+				}
+				start := false
+				for _, e := range phi.Edges {
+					if k, ok := constInt(e); ok && k == -1 {
+						start = true
+					} else if e != ssa.Value(add) {
+						start = false
+						break
+					}
+				}
+				bound := false
+				for _, r := range refs(add) {
+					if cmp, ok := r.(*ssa.BinOp); ok && cmp.Op == token.LSS && cmp.X == add && isLen(cmp.Y) {
+						bound = true
+					}
+				}
+				if start && bound && everyIter(phi) {
+					return in, true
+				}
+				continue
+			}
+			// counted form: index = phi, phi = 0 on entry and phi + 1 on every back edge, body guarded by phi < len(same slice)
+			if phi, ok := ia.Index.(*ssa.Phi); ok {
+				shape := true
+				for i, e := range phi.Edges {
+					pred := phi.Block().Preds[i]
+					if phi.Block().Dominates(pred) {
+						bo, ok := e.(*ssa.BinOp)
+						k, isk := int64(0), false
+						if ok {
+							k, isk = constInt(bo.Y)
+						}
+						if !ok || bo.Op != token.ADD || bo.X != ssa.Value(phi) || !isk || k != 1 {
+							shape = false
+						}
+					} else if k, ok := constInt(e); !ok || k != 0 {
+						shape = false
+					}
+				}
+				bound := guardedBy(fn, b, func(cd Cond) (bool, bool) {
+					if cd.Op == token.LSS && cd.X == ssa.Value(phi) && isLen(cd.Y) {
+						return true, true
+					}
+					if cd.Op == token.GEQ && cd.X == ssa.Value(phi) && isLen(cd.Y) {
+						return true, false
+					}
+					return false, false
+				})
+				// the loop is left only through that bound test
+				if shape && bound && everyIter(phi) {
+					return in, true
+				}
 			}
 		}
 	}
@@ -149,6 +202,12 @@ func ruleZ2(c *Ctx, id string) {
 				continue
 			}
 			role, ok := allowed[fn]
+			if !ok {
+				// a block of statements extracted from an allowed writer keeps its role
+				if o := ownerOf(fn); o != fn && actsFor(P, fn, func(f *ssa.Function) bool { return f == o }, 0) {
+					role, ok = allowed[o]
+				}
+			}
 			R.Check(ok, id, FuncName(fn)+"|writes blks", P.Pos(w.Instr.Pos()), "Inode.blks is written only by bmap (allocate), freeIndex (free), Decode and MkRootInode", "writer role: "+role, "a new writer of block pointers can drop a block without freeing it or alias one")
 			if !w.Element || w.Val == nil {
 				continue
